@@ -265,7 +265,26 @@ ParseCases ==
      e \in Items1 \cup {" ", "  "} \cup {a \o "," \o b : a \in Items2, b \in Items2}
           \cup (IF Thorough THEN {a \o "," \o b \o "," \o d : a \in Items3, b \in Items3, d \in Items3} ELSE {})}
 
-PureCases == SatCases \cup MergeCases \cup ChainCases \cup FitCases \cup ParseCases
+\* -- several task roles of ONE task class in one deployment, deployed again afterwards.  The task template
+\* constrains machine_type (and maybe rack); a role (its group or the task role itself) may override it, its
+\* sibling need not.  A descriptor = <<group level, task level>> under a common root; `agents` offer every value.
+\* The class object (the task manager's class registry entry) is the SAME for all descriptors and both rounds.
+ShClass == {<<<<"machine_type", "flp">>>>, <<<<"machine_type", "flp">>, <<"rack", "r1">>>>, <<<<"rack", "r1">>, <<"machine_type", "flp">>>>, <<>>}
+ShGroup == {<<>>, <<<<"machine_type", "epn">>>>, <<<<"rack", "r2">>>>, <<<<"rack", "r2">>, <<"machine_type", "epn">>>>}
+ShTask == {<<>>, <<<<"machine_type", "epn">>>>, <<<<"zone", "a">>>>}
+ShRoot == {<<>>, <<<<"rack", "r2">>>>}
+ShAgents == << <<<<"machine_type", "flp">>, <<"rack", "r1">>, <<"zone", "a">>>>, <<<<"machine_type", "epn">>, <<"rack", "r1">>, <<"zone", "a">>>>,
+               <<<<"machine_type", "flp">>, <<"rack", "r2">>, <<"zone", "a">>>>, <<<<"machine_type", "epn">>, <<"rack", "r2">>, <<"zone", "a">>>> >>
+ShDesc == {<<g, t>> : g \in ShGroup, t \in ShTask}
+SharedCases ==
+  {[fn |-> "SharedClass", class |-> k, root |-> r, descs |-> ds, rounds |-> 2, agents |-> ShAgents] :
+     k \in ShClass, r \in ShRoot,
+     ds \in [1..2 -> ShDesc] \cup (IF Thorough THEN [1..3 -> {<<g, t>> : g \in ShGroup, t \in {<<>>, <<<<"machine_type", "epn">>>>}}] ELSE {})}
+\* what applies to descriptor i: template, then root, its group, its task role - nothing of its siblings, whatever the order
+ShChain(x, i) == <<x.class, x.root, x.descs[i][1], x.descs[i][2]>>
+ShExpected(x, i) == Merged(ShChain(x, i))
+
+PureCases == SatCases \cup MergeCases \cup ChainCases \cup FitCases \cup ParseCases \cup SharedCases
 
 NoRound == [pc |-> "none"]
 NoCase == [fn |-> "none"]
@@ -275,6 +294,7 @@ PureInit == /\ \/ c \in SatCases
                \/ c \in ChainCases
                \/ c \in FitCases
                \/ c \in ParseCases
+               \/ c \in SharedCases
             /\ rd = NoRound
 PureNext == UNCHANGED <<c, rd>>
 PureSpec == PureInit /\ [][PureNext]_<<c, rd>>
@@ -294,6 +314,14 @@ SatIsConjunction ==
 MergeNearestWins ==
   /\ (c.fn = "MergeParent" => NearestWins(<<c.parent, c.child>>, MergeParent(c.child, c.parent)))
   /\ (c.fn = "RoleChain" => NearestWins(ChainOf(c), Merged(ChainOf(c))))
+SharedClassIndependent ==   \* a descriptor's constraints do not depend on its siblings, their order or the round
+  c.fn = "SharedClass" =>
+    \A i \in 1..Len(c.descs) :
+      /\ NearestWins(ShChain(c, i), ShExpected(c, i))
+      /\ ShExpected(c, i) = ShExpected([c EXCEPT !.descs = <<c.descs[i]>>], 1)
+      /\ \A a \in {"machine_type", "rack"} :       \* without an override in its own branch the template's value applies
+           (Defines(c.class, a) /\ ~Defines(c.root, a) /\ ~Defines(c.descs[i][1], a) /\ ~Defines(c.descs[i][2], a))
+             => ValueIn(ShExpected(c, i), a) = ValueIn(c.class, a)
 FitsMonotone ==   \* more resources never turn a fitting template into a non-fitting one
   c.fn = "ResSatisfy" =>
     \A s \in Scalars, p \in PortOffers :
@@ -571,11 +599,11 @@ ObsOf(r) == [accepts |-> [i \in 1..Len(r.accepts) |->
 NoExec == [cpu |-> 0, mem |-> 0]
 Exec1 == [cpu |-> 10, mem |-> 64]
 OfferCat ==
-  << [id |-> "o1", host |-> "hA", attrs |-> [machine_id |-> "hA", rack |-> "r1"], cpus |-> 4000, mem |-> 1024,
+  << [id |-> "o1", host |-> "hA", attrs |-> [machine_id |-> "hA", rack |-> "r1", machine_type |-> "flp"], cpus |-> 4000, mem |-> 1024,
       ports |-> <<<<9000, 9003>>, <<30000, 30002>>>>],
-     [id |-> "o2", host |-> "hB", attrs |-> [machine_id |-> "hB", rack |-> "r1,r2"], cpus |-> 800, mem |-> 256,
+     [id |-> "o2", host |-> "hB", attrs |-> [machine_id |-> "hB", rack |-> "r1,r2", machine_type |-> "epn"], cpus |-> 800, mem |-> 256,
       ports |-> <<<<9000, 9001>>, <<30000, 30001>>>>],
-     [id |-> "o3", host |-> "hC", attrs |-> [machine_id |-> "hC", rack |-> "r2"], cpus |-> 4000, mem |-> 1024,
+     [id |-> "o3", host |-> "hC", attrs |-> [machine_id |-> "hC", rack |-> "r2", machine_type |-> "flp"], cpus |-> 4000, mem |-> 1024,
       ports |-> <<<<9000, 9002>>>>] >>
 Ct(a, v) == [attr |-> a, value |-> v]
 DescCat ==
@@ -607,13 +635,27 @@ DescCat ==
 \* strictly increasing index sequences of length 1..n
 IncSeqs(m, n) == {s \in UNION {[1..k -> 1..m] : k \in 1..n} : \A i \in 1..(Len(s) - 1) : s[i] < s[i + 1]}
 Pick(cat, idx) == [k \in 1..Len(idx) |-> cat[idx[k]]]
+
+\* descriptors that SHARE a task class (field class; same template: chain[1], wants, channels): one role overrides
+\* the template's machine_type, its sibling does not - in both orders (kA: overriding role first, kB: plain role first)
+ShD(id, cls, group, task) ==
+  [id |-> id, class |-> cls, chain |-> << <<Ct("machine_type", "flp")>>, group, task >>, cpu |-> 100, mem |-> 32, static_expr |-> "",
+   tcp_inbound |-> 0, ipc_inbound |-> 0, controllable |-> FALSE]
+SharedDescSets ==
+  { << ShD("s1", "kA", <<Ct("machine_type", "epn")>>, <<>>), ShD("s2", "kA", <<>>, <<>>) >>,
+    << ShD("s3", "kB", <<>>, <<>>), ShD("s4", "kB", <<>>, <<Ct("machine_type", "epn")>>) >>,
+    << ShD("s5", "kC", <<Ct("rack", "r1")>>, <<>>), ShD("s6", "kC", <<Ct("machine_type", "epn")>>, <<>>), ShD("s7", "kC", <<>>, <<>>) >> }
+SharedRoundCat ==
+  {[offers |-> Pick(OfferCat, oi), descs |-> ds, exec |-> Exec1] :
+     oi \in {<<1, 2>>, <<2, 3>>, <<1, 2, 3>>, <<2>>, <<1>>}, ds \in SharedDescSets}
+
 RoundCat ==
   {[offers |-> Pick(OfferCat, oi), descs |-> Pick(DescCat, di), exec |-> e] :
      oi \in IncSeqs(Len(OfferCat), 2), di \in IncSeqs(Len(DescCat), IF Thorough THEN 3 ELSE 2),
      e \in IF Thorough THEN {NoExec, Exec1} ELSE {Exec1}}
 
 RoundInit == /\ c = NoCase
-             /\ \E x \in RoundCat : rd = RoundStart(x.offers, x.descs, x.exec)
+             /\ \E x \in RoundCat \cup SharedRoundCat : rd = RoundStart(x.offers, x.descs, x.exec)
 RoundNext == ((\E oid \in Ids(rd.offers) : ProcessOffer(oid)) \/ Finish) /\ UNCHANGED c
 RoundSpec == RoundInit /\ [][RoundNext]_<<c, rd>>
 
